@@ -185,3 +185,82 @@ def install():
         return await orig_shutdown(self, *a, **k)
 
     M.shutdown = shutdown_w
+
+
+# ---------------------------------------------------------------------------------------------------
+# validation of recorded executions against spec/Sched.tla (spec/TraceSchedSteps.tla), batched
+
+def _steps(path):
+    from harness import tlc
+    r = tlc.run("TraceSchedSteps", "SPECIFICATION Spec\nCHECK_DEADLOCK FALSE\n", env={"TRACE_FILE": path},
+                workers=1, timeout=3000)
+    return {"rc": r.rc, "err": (r.error or r.out[-1500:]) if r.rc else None, "prints": r.prints, "generated": r.generated,
+            "distinct": r.distinct}
+
+
+def validate(ck, execs, tmp, nb=14, label="seed"):
+    """execs: [(origin, Recorder.dump())].  Adds coverage to ck and one MODEL-DRIFT line per refused step."""
+    import json
+    import multiprocessing as mp
+    import os
+    execs = [x for x in execs if x[1] and x[1]["ev"]]
+    if not execs:
+        return
+    batches = [execs[i::nb] for i in range(nb) if execs[i::nb]]
+    bpaths = []
+    for bi, b in enumerate(batches):
+        cmds, ev, eorig = {}, [], []
+        for ti, (seed, st) in enumerate(b):
+            pre = f"e{ti}"
+            for pid, c in st["cmds"].items():
+                cmds[pre + pid] = {"m": pre + c["m"], "k": c["k"], "peek": c["peek"], "nums": c["nums"], "bad": c["bad"]}
+            start = len(ev)
+            if ti:
+                ev.append({"e": "Reset"})
+            for e in st["ev"]:
+                e = dict(e)
+                if e.get("p"):
+                    e["p"] = pre + e["p"]
+                if e.get("m"):
+                    e["m"] = pre + e["m"]
+                ev.append(e)
+            for e in ev[start:]:
+                e["tid"] = ti
+            eorig.append((seed, start, len(ev)))
+        # a step the model refuses: validation goes on with the next execution
+        for (seed, a, z) in eorig:
+            for j in range(a, z):
+                ev[j]["nxt"] = z + 1          # 1-based index of the next execution's Reset
+        for e in ev:
+            for k_, dv in (("p", ""), ("m", ""), ("how", ""), ("out", ""), ("hasdel", False)):
+                e.setdefault(k_, dv)
+        bp = os.path.join(tmp, f"steps{bi}.json")
+        json.dump({"cmds": cmds, "ev": ev}, open(bp, "w"))
+        bpaths.append((bp, len(ev), eorig, ev))
+    with mp.get_context("fork").Pool(len(bpaths)) as pool:
+        souts = pool.map(_steps, [x[0] for x in bpaths])
+    nsteps = ndrift = 0
+    for (bp, n, eorig, ev), o in zip(bpaths, souts):
+        if o["rc"] != 0:
+            raise RuntimeError(f"TraceSchedSteps failed: {o['err']}")
+        if not any(pr and pr[0] == "DONE" for pr in o["prints"]):
+            raise RuntimeError("TraceSchedSteps did not reach the end of a batch")
+        ck.cov["states"] += o["distinct"]
+        ck.cov["transitions"] += o["generated"]
+        nsteps += o["distinct"] - 1
+        for pr in o["prints"]:
+            if pr and pr[0] == "DRIFT":
+                ndrift += 1
+                seed = eorig[pr[2]][0]
+                e = {k_: v for k_, v in ev[pr[1] - 1].items() if v not in ("", None)}
+                ck.model_drift("SchedStep", e.get("e", "?"), f"{label} {seed}: recorded step {json.dumps(e)} is not a step "
+                               "spec/Sched.tla allows from the state the earlier recorded steps lead to")
+    ck.cov["admission_protocol_steps_validated"] = nsteps
+    ck.cov["admission_protocol_passages"] = sum(len(st["cmds"]) for _, st in execs)
+    ck.cov["admission_protocol_steps_refused_by_model"] = ndrift
+    kinds = {}
+    for _, st in execs:
+        for e in st["ev"]:
+            key = e["e"] + (":" + (e.get("how") or e.get("out")) if (e.get("how") or e.get("out")) else "")
+            kinds[key] = kinds.get(key, 0) + 1
+    ck.cov["admission_protocol_step_kinds"] = kinds
